@@ -13,7 +13,8 @@ import (
 
 func TestMain(m *testing.M) { kit.Main(m) }
 
-// clause (a): allocate only, constraint-free identical pods, healthy nodes, one cycle.
+// clause (a): allocate only, constraint-free identical pods, healthy nodes; 1-3 cycles (each cycle is judged on its
+// own), DRA device claims, one scheduler process for all cycles in part of the worlds, pods that finish between cycles.
 func profileA() sim.Profile {
 	pf := sim.DefaultProfile()
 	pf.MaxGroups = 9
@@ -26,7 +27,12 @@ func profileA() sim.Profile {
 	pf.PTerminating = 2
 	pf.PLimits = 5
 	pf.MinCycles = 1
-	pf.MaxCycles = 1
+	pf.MaxCycles = 3
+	pf.PDRA = 3
+	pf.PPersistent = 6
+	pf.PMutations = 4
+	pf.MutationKinds = []string{"pod-finish", "pod-finish", "node-unschedulable", "queue-gpu", "pod-replace"}
+	pf.NoBindFailures = true
 	pf.Actions = [][]string{{"allocate"}}
 	return pf
 }
